@@ -1,10 +1,13 @@
 import JxlModel.Driver.C13
 import JxlModel.Driver.Enc
 import JxlModel.Driver.C10
+import JxlModel.Driver.C02
 
 def main (args : List String) : IO UInt32 := do
   match args with
   | ["c13"] => Jxl.Driver.C13.main; return 0
   | ["enc"] => Jxl.Driver.Enc.main; return 0
   | ["c10"] => Jxl.Driver.C10.main; return 0
+  | ["c02"] => Jxl.Driver.C02.main .checked; return 0
+  | ["c02", "wrapping"] => Jxl.Driver.C02.main .wrapping; return 0
   | _ => IO.eprintln "usage: jxlmodel <component>"; return 2
